@@ -15,7 +15,7 @@ ASSUMPTIONS = [
     "the delta/sigma-profile relation is checked per composition (n+, n-) so that the global sigma is a constant of the item",
 ]
 OUTSIDE = ["sequence lengths above the bound", "groups given in lower case or as strings (covered by C06 for kappa_X's parser, same helper)"]
-NMAX = {"quick": 7, "thorough": 10}
+NMAX = {"quick": 7, "thorough": 12}
 NDELTA = {"quick": 7, "thorough": 9}
 ITEM_TIMEOUT = {"quick": 400, "thorough": 2400}
 FUNCS = ["get_linear_NCPR", "get_linear_FCR", "get_linear_sigma", "get_linear_hydropathy"]
